@@ -13,6 +13,8 @@ FUNCTIONS = ["btc_hd_wallet.keys.PrivateKey.__init__", "btc_hd_wallet.keys.Priva
 BOUNDS = {"scalars": "every integer (unbounded, negative included) for construction from int; every byte string of length 0..40",
           "wif": "every k in [1,n-1], four flavours; first-character/length lemma over all k and all 2^32 checksums",
           "sec": "every public key (group model), compressed and uncompressed; every 33-byte string for rejection"}
+BOUNDS_ADDED = 'an accepted SEC encoding satisfies the curve-membership predicate (model) / the curve equation (replay); an imported key re-exported in all four flavours, positional and keyword; boundary vectors: wrong prefix bytes with a valid x, off-curve (x, y)'
+BOUNDS["histories, lifetimes, injected faults, boundary vectors"] = BOUNDS_ADDED
 STUBS = ["secp256k1 (ecdsa) -> group model: range and length checks of SigningKey.from_string / from_secret_exponent, SEC validity as an "
          "uninterpreted predicate", "Base58Check -> summary; the first character and length of a WIF string are given by the lemma rows "
          "proved in the wif_lemma cases", "SHA-256 -> uninterpreted"]
